@@ -159,7 +159,7 @@ def shrink(ops, code):
 
 
 def main(tier, seed):
-    ck = Check(PID, tier, seed, "Props.C20", ["Model/IoBox.v", "Proofs/IoBoxP.v", "Props/C20.v"])
+    ck = Check(PID, tier, seed, "Props.C20", ["Model/IoBox.v", "Proofs/IoBoxP.v", "Model/PyLib.v", "Gen/SourceFuns.v", "Proofs/GenIoBoxP.v", "Props/C20.v"])
     ck.build_and_audit()
     rng = random.Random(seed)
     cases, nex, maxlen = gen_cases(tier, rng)
